@@ -20,7 +20,7 @@ Failed(r) ==
   LET T == Tabl(r)
       p == Nominal[r.cls]
   IN {c \in {"C05_explicit_rk", "C05_weights", "C05_order", "C05_stage_time", "C05_time_advance", "C05_ssp",
-              "C05_stability_poly", "DRIFT_tableau"} :
+              "C05_stability_poly", "DRIFT_tableau", "DRIFT_propagator"} :
        ~ CASE c = "C05_explicit_rk"  -> Explicit(T) /\ r.affine                  \* lower triangular, y-coefficients all 1
            [] c = "C05_weights"      -> WeightsSumToOne(T)
            [] c = "C05_order"        -> OrderAtLeast(T, p)
@@ -33,7 +33,13 @@ Failed(r) ==
                     [] r.cls = "lsrk4"    -> (r.poly # <<>> => PolyClose(r.poly, TAY4, 5)) /\ (r.exact => TaylorTo(T, 4))
                     [] OTHER -> TRUE
            [] c = "DRIFT_tableau"    -> (r.cls \in DOMAIN CodeTableaux /\ r.exact) =>
-                                           (T.A = CodeTableaux[r.cls].A /\ T.b = CodeTableaux[r.cls].b)}
+                                           (T.A = CodeTableaux[r.cls].A /\ T.b = CodeTableaux[r.cls].b)
+           \* timemodel.propagator(z) (the API behind cflmax) is the stability polynomial of the SAME tableau the step realises:
+           \* 1 + sum_k gamma_k z^k, at dyadic real z (outside the listed properties: informational)
+           [] c = "DRIFT_propagator" -> r.exact =>
+                  \A k \in 1..Len(r.prop) :
+                     LET z == FromPair(r.prop[k][1]) IN
+                     FromPair(r.prop[k][2]) = RAdd(One, RSum([j \in 1..S(T) |-> RMul(Gamma(T, j), RPow(z, j))]))}
 
 Init == i = 0 /\ bad = <<>>
 Step == /\ i < Len(Recs) /\ i' = i + 1
